@@ -13,6 +13,7 @@ func init() { runners["c10"] = runC10 }
 var c10Keys = []string{
 	"a", "a/b", "n", "..", "../bkb/a", "../../buckets_evil/x", "../../../escape", "a//b", "./a", "a/./b", "a/../n",
 	".hidden", "..dots", "x\\y", "%2e%2e/z", "a%2Fb", "_meta", "metadata", ".modtime-resolution", "buckets/bkb/a",
+	"a_b", "a\\b", "x/y", "x_y", "A", // names that collide under flattening ('/', '\\' -> '_') or case folding
 	"dir", "/lead", "lead", "sp ace", "\xc3\xa9", "long/" + strings.Repeat("s", 254),
 }
 
@@ -38,7 +39,7 @@ func c10Snapshot(s *Sess, buckets []string) []string {
 			g := do(s.h, Req{Method: "GET", Path: "/" + pathEscape(b) + "/" + pathEscape(k)})
 			v := fmt.Sprint(g.Status)
 			if g.Status == 200 {
-				v += "|" + g.Header.Get("ETag") + "|" + string(g.Body)
+				v += "|" + g.Header.Get("ETag") + "|" + string(g.Body) + "|" + metaField(g.Header)
 			}
 			if g.Panic != "" {
 				v = "panic"
@@ -126,7 +127,14 @@ func runC10(tier string, seed uint64) {
 				var r Resp
 				switch w := rng.Intn(100); {
 				case w < 45:
-					r = s.Put(b, k, []byte(fmt.Sprintf("body-%d-%d", i, j)), nil)
+					var m []KV
+					if rng.Intn(3) > 0 {
+						m = []KV{{"X-Amz-Meta-Op", fmt.Sprintf("%d-%d", i, j)}}
+						if rng.Bool() {
+							m = append(m, KV{"Content-Type", fmt.Sprintf("text/x-%d", j)})
+						}
+					}
+					r = s.Put(b, k, []byte(fmt.Sprintf("body-%d-%d", i, j)), m)
 				case w < 65:
 					r = s.Delete(b, k)
 				case w < 75:
@@ -163,5 +171,5 @@ func runC10(tier string, seed uint64) {
 			s.end()
 		}
 	}
-	sample("per backend: histories of put / delete / get / copy / multi-delete / create-bucket / delete-bucket / list addressed to 3 buckets (plus the names _meta . .. metadata) x 25 hostile keys (.. ../bkb/a ../../buckets_evil/x a//b ./a a/./b a/../n .hidden x\\\\y %2e%2e/z _meta metadata .modtime-resolution buckets/bkb/a UTF-8 254-byte segment ...); after every operation a snapshot of every probe (HEAD+list of 7 bucket names, GET of every hostile key in each, bucket list, and for real-directory backends every file on disk classified by bucket root) is compared with the snapshot before")
+	sample("per backend: histories of put / delete / get / copy / multi-delete / create-bucket / delete-bucket / list addressed to 3 buckets (plus the names _meta . .. metadata) x 25 hostile keys (.. ../bkb/a ../../buckets_evil/x a//b ./a a/./b a/../n .hidden x\\\\y a_b a\\\\b x/y x_y A %2e%2e/z _meta metadata .modtime-resolution buckets/bkb/a UTF-8 254-byte segment ...); after every operation a snapshot of every probe (HEAD+list of 7 bucket names, GET of every hostile key in each incl. ETag, body and metadata, bucket list, and for real-directory backends every file on disk classified by bucket root) is compared with the snapshot before")
 }
